@@ -4,6 +4,7 @@ package eval
 
 import (
 	"fmt"
+	"time"
 	"testing"
 
 	"src.elv.sh/pkg/parse"
@@ -25,9 +26,14 @@ func TestVerifSchedProbe(t *testing.T) {
 	}
 	r := vsched.Run(nil, 5000, body)
 	fmt.Println(r.Log, "points", len(r.Points), "deadlock", r.Deadlock, r.Blocked, "g", r.NG)
-	x := &vsched.Explorer{Bound: 1, MaxPoints: 5000, Body: body}
-	outs := map[string]int{}
-	x.Check = func(r *vsched.Result) { outs[fmt.Sprint(r.Log, r.Deadlock)]++ }
-	x.Explore(nil)
-	fmt.Println("executions", x.Executions, "maxpts", x.MaxPts, "outs", outs, x.Diverged)
+	for _, b := range []int{0, 1, 2} {
+		for _, delay := range []bool{true, false} {
+			t0 := time.Now()
+			x := &vsched.Explorer{Delay: delay, Bound: b, MaxPoints: 5000, Body: body, Stop: func() bool { return time.Since(t0) > 100*time.Second }}
+			outs := map[string]int{}
+			x.Check = func(r *vsched.Result) { outs[fmt.Sprint(r.Log, r.Deadlock)]++ }
+			x.Explore(nil)
+			fmt.Println("delay", delay, "bound", b, "executions", x.Executions, "capped", x.Capped, "maxpts", x.MaxPts, "outs", outs, x.Diverged, time.Since(t0))
+		}
+	}
 }
